@@ -243,7 +243,7 @@ def distance_bin(G):
     while np.any(L):
         D += n * L
         n += 1
-        nPATH = np.dot(nPATH, G)
+        nPATH = (np.dot(nPATH, G) != 0).astype(float)
         L = (nPATH != 0) * (D == 0)
 
     D[D == 0] = np.inf  # disconnected nodes are assigned d=inf
@@ -688,7 +688,7 @@ def reachdist(CIJ, ensure_binary=True):
     faster but more memory intensive than "breadthdist.m".
     '''
     def reachdist2(CIJ, CIJpwr, R, D, n, powr, col, row):
-        CIJpwr = np.dot(CIJpwr, CIJ)
+        CIJpwr = (np.dot(CIJpwr, CIJ) != 0).astype(float)
         R = np.logical_or(R, CIJpwr != 0)
         D += R
 
